@@ -161,6 +161,10 @@ struct Plan {
     std::vector<Rec> recs;
     std::vector<Event> events;
     int allow_missing = 0; // fault "lost registration" is part of this plan
+    // objects whose dynamic class is a registered *abstract* class are legal
+    // arguments (what a method called from the constructor or destructor of
+    // an abstract base passes)
+    int abstract_args = 0;
     int heap_jitter = 0;   // dummy allocations before the run
     // differential mode: "" (none), "orders" (re-run with event 0's records in
     // each of `orders`), "fresh" (re-run the final live registry in a pristine
